@@ -109,7 +109,7 @@ def main(argv):
 
     if a.replay:
         rp = json.load(open(a.replay))
-        b = {'model_ok': os.path.exists(modelproc.EXE)}
+        b = {'model_ok': os.path.exists(modelproc.exe(pid))}
         ctx = Ctx(pid, tier, seed, b)
         if rp.get('input') is None:
             print('replay: no concrete input in %s (broken obligation: %s)' % (a.replay, rp.get('broken')))
